@@ -56,6 +56,8 @@ pub(crate) struct Speaker {
     pub auto_ka: bool,
     /// stop sending periodic KEEPALIVEs (peer goes silent)
     pub mute: bool,
+    /// how many times each key was announced to us on this connection
+    pub reach_count: BTreeMap<MirrorKey, u32>,
     consumed: u64,
 }
 
@@ -178,6 +180,7 @@ impl Speaker {
             is_ebgp_view: false,
             auto_ka: true,
             mute: false,
+            reach_count: BTreeMap::new(),
             consumed: 0,
         }
     }
@@ -195,6 +198,7 @@ impl Speaker {
         self.state = SpkState::Idle;
         self.open_sent = false;
         self.mirror.clear();
+        self.reach_count.clear();
         self.eor_seen.clear();
         self.notifications.clear();
         self.closed_at = None;
@@ -362,7 +366,9 @@ impl Speaker {
                     match u {
                         bgp::Update::Reach { family, entries, nexthop, attr } => {
                             for e in entries {
-                                self.mirror.insert((fam_key(family), format!("{:?}", e.nlri), e.path_id), ((*attr).clone(), nexthop));
+                                let k = (fam_key(family), format!("{:?}", e.nlri), e.path_id);
+                                *self.reach_count.entry(k.clone()).or_insert(0) += 1;
+                                self.mirror.insert(k, ((*attr).clone(), nexthop));
                             }
                         }
                         bgp::Update::Unreach { family, entries } => {
